@@ -88,23 +88,35 @@ MERGE_ASSUMPTIONS = [
 
 
 def ctor(repo: Repo, tier):
-    from sa.ctor_check import CtorChecker
+    """All constructor / writer interpretations.  Each sub-check is isolated: a construct outside the interpreted
+    fragment in one function makes only the checks that need *that* function abstain (cc.errors)."""
+    from sa.ctor_check import CtorChecker, check_generate_interactions, check_reciprocal
+    from sa.line_model import check_event_replay
     key = ("ctor", repo.digest(), tier)
     if key not in _cache:
         def make(R):
             cc = CtorChecker(repo, R=R, max_n=2 if tier == "quick" else 3)
+            cc.errors = {}
+
+            def guarded(tag, f, *a, **k):
+                try:
+                    f(*a, **k)
+                except Undetermined:
+                    raise
+                except AnalysisError as ex:
+                    cc.errors[tag] = ex
             for cls in CLASSES:
-                cc.check_time_slice(cls)
-                cc.check_time_slice_selfloop(cls)
-                cc.check_generate_snapshots(cls)
-                cc.check_node_link_data(cls)
-            cc.check_conversion("DynGraph", "to_directed", "DynDiGraph")
-            cc.check_conversion("DynDiGraph", "to_undirected", "DynGraph")
-            from sa.ctor_check import check_event_replay, check_generate_interactions, check_reciprocal
-            check_reciprocal(cc, shapes=((1, 1), (1, 2), (2, 1)) if tier == "quick" else ((1, 1), (1, 2), (2, 1), (2, 2)))
+                guarded("C06", cc.check_time_slice, cls)
+                guarded("C06", cc.check_time_slice_selfloop, cls)
+                guarded("C09", cc.check_generate_snapshots, cls)
+                guarded("C11", cc.check_node_link_data, cls)
+            guarded("C16.to_directed", cc.check_conversion, "DynGraph", "to_directed", "DynDiGraph")
+            guarded("C16.to_undirected", cc.check_conversion, "DynDiGraph", "to_undirected", "DynGraph")
+            guarded("C16.reciprocal", check_reciprocal, cc,
+                    shapes=((1, 1), (1, 2), (2, 1)) if tier == "quick" else ((1, 1), (1, 2), (2, 1), (2, 2)))
             for cls in CLASSES:
-                check_event_replay(cc, cls)
-                check_generate_interactions(cc, cls)
+                guarded("C10.replay", check_event_replay, cc, cls)
+                guarded("C10.rows", check_generate_interactions, cc, cls)
             return cc
         cc, R = escalate(make, tier)
         cc.R = R
@@ -112,7 +124,13 @@ def ctor(repo: Repo, tier):
     return _cache[key]
 
 
-def take_ctor(rep: Report, cc, prefixes, rule="O.constructors", skip_keys=()):
+def take_ctor(rep: Report, cc, prefixes, rule="O.constructors", skip_keys=(), optional=()):
+    """Copy findings of the selected clauses; abstain (AnalysisError) when a sub-check the clauses need could not run.
+    ``optional`` prefixes contribute findings when available but do not force an abstention."""
+    for tag, ex in cc.errors.items():
+        if any(tag.startswith(p.rstrip(".")) or p.startswith(tag) for p in prefixes) and not any(
+                tag.startswith(o.rstrip(".")) or o.startswith(tag) for o in optional):
+            raise ex
     n = 0
     for k, f in sorted(cc.findings.items()):
         if not any(f["clause"].startswith(p) for p in prefixes):
@@ -154,11 +172,24 @@ def enumeration_users(repo: Repo, which):
         for rel, qual, cls in table[name]:
             fn = repo.get(rel, qual)
             used = None
-            for n in ast.walk(fn):
-                if isinstance(n, ast.Call) and isinstance(n.func, ast.Attribute) and n.func.attr in (
-                        "interactions_iter", "interactions", "out_interactions", "out_interactions_iter"):
-                    used = n.func.attr
+            from sa.absint import FUNCTION_INDEX
+            bodies, seen = [fn], {fn.name}
+            for _ in range(2):
+                for b in list(bodies):
+                    for c in ast.walk(b):
+                        if isinstance(c, ast.Call) and isinstance(c.func, ast.Name) and c.func.id in FUNCTION_INDEX and c.func.id not in seen:
+                            seen.add(c.func.id)
+                            bodies.append(FUNCTION_INDEX[c.func.id][0][1])
+            for b in bodies:
+                for n in ast.walk(b):
+                    if isinstance(n, ast.Call) and isinstance(n.func, ast.Attribute) and n.func.attr in (
+                            "interactions_iter", "interactions", "out_interactions", "out_interactions_iter"):
+                        used = n.func.attr
+                        break
+                if used:
                     break
+            if used is None and any(isinstance(n, ast.Attribute) and n.attr in ("_adj", "_succ", "adj", "succ") for b in bodies for n in ast.walk(b)):
+                continue        # walks the adjacency itself: nothing inherited from the enumeration
             if used is None:
                 raise AnalysisError("%s: the enumeration of the source's interactions was not found" % qual)
             out[repo.construct(rel, qual) + ("[G:%s]" % cls if "." not in qual else "")] = (cls, used)
